@@ -81,7 +81,8 @@ func init() {
 			// on the real runtime: a COMMIT must be handled by the term of its own height (seed-identified), also while syncs
 			// overtake a round that is being set up
 			fs, ev, inc := rtPart(run, "stress", 32, 1200, map[string]int{"C17 commits judged for the term that handled them": 3000})
-			return fs, map[string]interface{}{"rt_stress": ev}, inc
+			cfs, cev, cinc := rtPart(run, "commitsync", 32, 1200, map[string]int{"C17 rounds overtaken by a sync while being set up": 15})
+			return append(fs, cfs...), map[string]interface{}{"rt_stress": ev, "rt_commitsync": cev}, append(inc, cinc...)
 		}})
 	reg(&sim.SimCheck{Prop: "C09", Workload: "c09", Profile: withOpts(advProfile(merge(map[string]int{"barePP": 5}, map[string]int{"vcGames": 25, "support": 20, "equivocate": 8}), 600, 2), func(p *sim.Profile) { p.CommErrors = true }),
 		QuickCases: 5000, ThoroughCases: 100000,
@@ -211,7 +212,11 @@ func init() {
 			// (c) on the real runtime: the random seed each COMMIT share is verified against identifies the term that handles it
 			rfs, rev, rinc := rtPart(run, "stress", 32, 1200, map[string]int{"C17 commits judged for the term that handled them": 3000})
 			ev["rt_stress"] = rev
-			return append(fs, rfs...), ev, append(inc, rinc...)
+			// ... and with a scripted committee: a sync overtakes the round that is being set up after a commit while that
+			// round's COMMITs are already queued
+			cfs, cev, cinc := rtPart(run, "commitsync", 32, 1200, map[string]int{"C17 rounds overtaken by a sync while being set up": 15})
+			ev["rt_commitsync"] = cev
+			return append(append(fs, rfs...), cfs...), ev, append(append(inc, rinc...), cinc...)
 		}})
 	reg(&sim.SimCheck{Prop: "C18", Workload: "c18", Profile: advProfile(merge(noBare, map[string]int{"hugeView": 10, "vcGames": 15}), 500, 2),
 		QuickCases: 1500, ThoroughCases: 40000,
